@@ -20,8 +20,8 @@ static const int NBULK = 6144; // extra slots used by the bulk op (fills whole s
 static int P_maps, P_unmaps, P_slab_first, P_slab_additional, P_large, P_realloc_inplace, P_realloc_moved, P_realloc_map, P_xfree, P_handover, P_take_fail, P_contended_construct, P_remote_free_into_head,
 	P_relink_full, P_mapfail_injected, P_mapfail_while_other_holds, P_skipped, P_poison_redundant, P_unpoison_redundant, P_churn_iters, P_arena_exhausted, P_lock_contention, P_recovered, P_pages_sampled, P_unaligned_slack, P_bulk_blocks, P_slab_filled, P_long_churn, P_granule_runs, P_burst_fail, P_multi_pages_checked;
 
-struct Region { uint64_t base, len; int kind; /*0 slab,1 large*/ int64_t pages; int by_task, by_op; uint64_t cls; bool counted; };
-struct Block { char *ptr = nullptr; size_t req = 0, reported = 0; uint64_t pat = 0; int owner = 0; bool live = false, offered = false, inflight = false; VC chan; };
+struct Region { uint64_t base, len; int kind; /*0 slab,1 large*/ int64_t pages; int by_task, by_op; uint64_t cls; bool counted; int64_t live = 0; int last_free_task = 0; uint64_t last_free_step = 0; };
+struct Block { char *ptr = nullptr; size_t req = 0, reported = 0; uint64_t pat = 0; int owner = 0; int alloc_task = 0; bool live = false, offered = false, inflight = false; VC chan; };
 
 struct SlabEngine;
 static SlabEngine *G;
@@ -445,7 +445,7 @@ struct SlabEngine : Engine {
 		if (cur_opid() != c.last_opid) { c.last_opid = cur_opid(); c.op_maps = 0; }
 		c.map_calls = 0; c.mapfail = op.mapfail; c.place = op.place; c.failed_any = false; c.failed_injected = false; c.maps_ok = 0; c.unmaps = 0; c.mapped_bases.clear(); c.unmapped.clear();
 		for (int t = 1; t < MAXT; t++) if (t != me && cur[t].inflight_h != -1) { probe(P_lock_contention); break; }
-		c.inflight_h = -2;
+		c.inflight_h = -2; call_begin[me] = now();
 	}
 	void end_call(int me) {
 		cur[me].inflight_h = -1;
@@ -520,7 +520,9 @@ struct SlabEngine : Engine {
 		if (pi.poison && memchr(pshadow + o, 1, need))
 			violation("not_unpoisoned", "%s(%zu) returned +0x%llx but not all requested bytes are unpoisoned", what, b.req, (unsigned long long)o);
 		live_by_addr[o] = h; last_touched = o;
-		b.live = true; b.owner = me; b.offered = false; b.inflight = false;
+		r->live++;
+		if (r->last_free_task && r->last_free_task != me && r->last_free_step >= call_begin[me]) probe(P_remote_free_into_head);
+		b.live = true; b.owner = me; b.alloc_task = me; b.offered = false; b.inflight = false;
 		uint64_t c = cls_of(rep);
 		if (c) { live_cls[c]++; if (live_cls[c] > peak_cls[c]) peak_cls[c] = live_cls[c]; }
 	}
@@ -555,6 +557,11 @@ struct SlabEngine : Engine {
 	void release_block(int h) {
 		Block &b = blk[h];
 		last_touched = off(b.ptr);
+		if (Region *r = find_region(last_touched)) {
+			int64_t bps = b.reported <= max_small ? blocks_per_slab(b.reported) : -1;
+			if (bps > 0 && r->live == bps) probe(P_relink_full); // the slab was completely full: this free puts it back into the partial tree
+			r->live--; r->last_free_task = cur_task(); r->last_free_step = now();
+		}
 		live_by_addr.erase(off(b.ptr));
 		uint64_t c = cls_of(b.reported); if (c) live_cls[c]--;
 		b.live = false; b.inflight = false; b.ptr = nullptr;
@@ -568,6 +575,7 @@ struct SlabEngine : Engine {
 	}
 
 	int64_t pages_before[MAXT];
+	uint64_t call_begin[MAXT] = {0};
 	void pages_pre(int me) { if (single) pages_before[me] = (int64_t)api->used_pages(pc, pool); }
 	void pages_post(int me, const char *what) {
 		if (!single) return;
@@ -647,6 +655,7 @@ struct SlabEngine : Engine {
 		size_t rep = api->get_size(pc, pool, b.ptr);
 		if (rep != b.reported) violation("size_changed", "block #%d reported size %zu at allocation and %zu now", h, b.reported, rep);
 		char *p = b.ptr; size_t reported = b.reported;
+		if (b.alloc_task != me && me != 0) probe(P_xfree);
 		begin_call(me, op);
 		pages_pre(me);
 		b.inflight = true;
